@@ -447,6 +447,56 @@ def combine_probe(res, rng):
             break
 
 
+def tracking_probe(res, rng, count):
+    """The real gridsearch loop driven with prescribed scores (a LinearGAM subclass whose fit() only records the next
+    score of a seeded sequence with many ties): the kept model must be the FIRST model attaining the minimum,
+    including the already fitted model itself."""
+    import pygam
+    from pygam import s
+    seq = dict(i=0, scores=[])
+
+    class Stub(pygam.LinearGAM):
+        def fit(self, X, y, weights=None):
+            if isinstance(self.link, str):          # what the real fit does first
+                self._validate_params()
+                self._validate_data_dep_params(X)
+            i = seq['i']
+            seq['i'] += 1
+            self.coef_ = np.array([float(i)])
+            self.statistics_ = {'GCV': seq['scores'][i], 'n_samples': len(y), 'm_features': 1}
+            return self
+
+    X = np.linspace(0, 1, 12).reshape(-1, 1)
+    y = np.sin(3 * X[:, 0])
+    for t in range(count):
+        kk = rng.randint(2, 7)
+        fitted = rng.random() < 0.5
+        scores = [float(rng.choice([1, 1, 2, 2, 3, 5])) for _ in range(kk + (1 if fitted else 0))]
+        if rng.random() < 0.15:
+            scores[rng.randrange(len(scores))] = float('inf')
+        seq['i'], seq['scores'] = 0, scores
+        g = Stub(s(0, n_splines=5))
+        if fitted:
+            g.fit(X, y)
+        lam = [float(2 ** j) for j in range(kk)]
+        try:
+            r = quiet(g.gridsearch, X, y, lam=lam, return_scores=True, keep_best=True, progress=False)
+        except Exception as e:
+            res.violations.append(dict(what='gridsearch raised on prescribed scores', input=dict(scores=scores, fitted=fitted),
+                                       expected='a result', observed='%s: %s' % (type(e).__name__, e), finding=None))
+            continue
+        got_scores = [float(v) for v in r.values()]
+        kept = int(g.coef_[0])
+        first = scores.index(min(scores))
+        res.case(('tracking', tuple(scores), fitted), sample=dict(probe='tracking', scores=scores, fitted=fitted, kept=kept) if t == 0 else None,
+                 nontrivial=scores.count(min(scores)) >= 2)
+        res.count('tracking-probe:ties' if scores.count(min(scores)) >= 2 else 'tracking-probe:unique-min')
+        if got_scores != scores or kept != first:
+            res.violations.append(dict(what='with prescribed scores the kept model is not the first model attaining the minimum',
+                                       input=dict(scores=scores, fitted_start=fitted, lam_grid=lam),
+                                       expected=dict(kept_index=first, scores=scores), observed=dict(kept_index=kept, scores=got_scores), finding=None))
+
+
 def run(res):
     rng = common.rng_for(res.seed, PROP)
     res.rule = ('Each case is a seeded gridsearch call: model in LinearGAM (unknown / known scale), PoissonGAM (with/without exposure), '
@@ -459,6 +509,7 @@ def run(res):
                 'generated skeleton and compares. Distinct = distinct configuration; non-trivial = at least 3 candidates fitted.')
     prove(res)
     combine_probe(res, rng)
+    tracking_probe(res, rng, 80 if res.tier == 'quick' else 1500)
     count = 110 if res.tier == 'quick' else 2500
     cases, metas = [], []
     for i in range(count):
